@@ -21,6 +21,7 @@ func (e unsupportedErr) Error() string { return e.msg }
 type insertion struct {
 	off  int
 	text string
+	del  int // bytes of the original to drop at off
 }
 
 // instrumentTree rewrites every non-test .go file below root (except the
@@ -187,11 +188,11 @@ func instrumentFile(fset *token.FileSet, af *ast.File, src []byte, pkgVars map[s
 						return false
 					}
 				case *ast.SendStmt:
-					ins = append(ins, insertion{off(st.Pos()), "zzsimrt.WaitSend(" + string(src[off(v.Chan.Pos()):off(v.Chan.End())]) + "); "})
+					ins = append(ins, insertion{off(st.Pos()), "zzsimrt.WaitSend(" + string(src[off(v.Chan.Pos()):off(v.Chan.End())]) + "); ", 0})
 					points++
 				case *ast.UnaryExpr:
 					if v.Op == token.ARROW {
-						ins = append(ins, insertion{off(st.Pos()), "zzsimrt.WaitRecv(" + string(src[off(v.X.Pos()):off(v.X.End())]) + "); "})
+						ins = append(ins, insertion{off(st.Pos()), "zzsimrt.WaitRecv(" + string(src[off(v.X.Pos()):off(v.X.End())]) + "); ", 0})
 						points++
 					}
 				}
@@ -213,7 +214,7 @@ func instrumentFile(fset *token.FileSet, af *ast.File, src []byte, pkgVars map[s
 				continue
 			}
 			if mentions(st) {
-				ins = append(ins, insertion{off(st.Pos()), call})
+				ins = append(ins, insertion{off(st.Pos()), call, 0})
 				points++
 			}
 			chanOps(st)
@@ -223,7 +224,7 @@ func instrumentFile(fset *token.FileSet, af *ast.File, src []byte, pkgVars map[s
 		if b == nil {
 			return
 		}
-		ins = append(ins, insertion{off(b.Lbrace) + 1, " " + call})
+		ins = append(ins, insertion{off(b.Lbrace) + 1, " " + call, 0})
 		points++
 	}
 
@@ -236,9 +237,9 @@ func instrumentFile(fset *token.FileSet, af *ast.File, src []byte, pkgVars map[s
 			}
 			// replace the path literal, forcing the local name
 			if im.Name == nil {
-				ins = append(ins, insertion{off(im.Path.Pos()), "sync "})
+				ins = append(ins, insertion{off(im.Path.Pos()), "sync ", 0})
 			}
-			ins = append(ins, insertion{off(im.Path.Pos()), "\x00DEL6" + `"` + shimImport + `"`})
+			ins = append(ins, insertion{off(im.Path.Pos()), `"` + shimImport + `"`, 6})
 		}
 	}
 
@@ -266,7 +267,20 @@ func instrumentFile(fset *token.FileSet, af *ast.File, src []byte, pkgVars map[s
 			case *ast.CommClause:
 				doList(v.Body)
 			case *ast.GoStmt:
-				note(v.Pos(), "a go statement")
+				// go f(a, b)  ->  go zzsimrt.GoCall(zzsimrt.Spawn(), f, a, b)
+				// (function value and arguments are still evaluated by the
+				// parent; the new goroutine becomes a simulated client)
+				if v.Call.Ellipsis.IsValid() {
+					note(v.Pos(), "a go statement with a variadic spread")
+					break
+				}
+				ins = append(ins, insertion{off(v.Call.Fun.Pos()), "zzsimrt.GoCall(zzsimrt.Spawn(), ", 0})
+				sep := ""
+				if len(v.Call.Args) > 0 {
+					sep = ", "
+				}
+				ins = append(ins, insertion{off(v.Call.Lparen), sep, 1})
+				points++
 			case *ast.SelectStmt:
 				// a select with a default clause never blocks; anything else
 				// would park the client while it holds the baton
@@ -282,7 +296,7 @@ func instrumentFile(fset *token.FileSet, af *ast.File, src []byte, pkgVars map[s
 			case *ast.SelectorExpr:
 				if id, ok := v.X.(*ast.Ident); ok && syncName != "" && id.Name == syncName && id.Obj == nil {
 					switch v.Sel.Name {
-					case "Cond", "WaitGroup", "NewCond", "OnceValue", "OnceValues":
+					case "Cond", "NewCond", "OnceValue", "OnceValues":
 						note(v.Pos(), "sync."+v.Sel.Name)
 					}
 				}
@@ -303,7 +317,7 @@ func instrumentFile(fset *token.FileSet, af *ast.File, src []byte, pkgVars map[s
 			case *ast.SelectorExpr:
 				if id, ok := v.X.(*ast.Ident); ok && syncName != "" && id.Name == syncName {
 					switch v.Sel.Name {
-					case "Cond", "WaitGroup":
+					case "Cond":
 						note(v.Pos(), "sync."+v.Sel.Name)
 					}
 				}
@@ -321,20 +335,17 @@ func instrumentFile(fset *token.FileSet, af *ast.File, src []byte, pkgVars map[s
 		// import on the same line as the package clause: line numbers of the
 		// original source are preserved (race reports and panics then point
 		// at real lines of /repo).
-		ins = append(ins, insertion{off(af.Name.End()), "; import zzsimrt \"" + rtImport + "\""})
+		ins = append(ins, insertion{off(af.Name.End()), "; import zzsimrt \"" + rtImport + "\"", 0})
 	}
 	sort.SliceStable(ins, func(i, j int) bool { return ins[i].off < ins[j].off })
 	var out []byte
 	prev := 0
 	for _, in := range ins {
-		out = append(out, src[prev:in.off]...)
-		prev = in.off
-		if strings.HasPrefix(in.text, "\x00DEL6") {
-			// replace the 6 bytes of `"sync"`
-			prev += 6
-			out = append(out, in.text[5:]...)
-			continue
+		if in.off < prev {
+			return 0, nil, fmt.Errorf("instrumenter: overlapping rewrites at offset %d", in.off)
 		}
+		out = append(out, src[prev:in.off]...)
+		prev = in.off + in.del
 		out = append(out, in.text...)
 	}
 	out = append(out, src[prev:]...)
